@@ -184,3 +184,7 @@ fn char_encode_utf8<'a>(c: char, buf: &'a mut [u8; 4]) -> (r: &'a str) ensures r
 /// `s.as_bytes()`
 #[verifier::external_body]
 fn str_as_bytes<'a>(s: &'a str) -> (r: &'a [u8]) ensures r@ == s.spec_bytes(), { s.as_bytes() }
+
+/// `char::is_ascii`
+pub assume_specification[char::is_ascii](c: &char) -> (r: bool)
+    ensures r == ((*c as u32) < 128);
